@@ -170,6 +170,32 @@ def q_bars(name, plan, n0, n1, requant, smax, dmax, multich=False, same_pitch=Fa
                  desc=f"sequences_split_bars, plan {plan}, tracks {n0}+{n1}, requantise={requant}")
 
 
+def q_cut_tail_then_same_pitch():
+    def fn(ctx):
+        vals = get_default_note_values()
+        s0 = ctx.int("s0", 84, 95)
+        d0 = vals[ctx.int("di0", 0, len(vals) - 1)]
+        s1 = ctx.int("s1", 126, 150)
+        d1 = vals[ctx.int("di1", 0, len(vals) - 1)]
+        v = ctx.int("v", 1, 127)
+        notes = [NoteV(0, 60, s0, s0 + d0, v), NoteV(0, 60, s1, s1 + d1, v)]
+        ctx.assume(distinct_keys_or_disjoint(ctx, notes))
+        tau = ctx.int("tau", 0, 400)
+        src = abs_sequence([on(0, 60, v, time=s0), off(0, 60, time=s0 + d0), on(0, 60, v, time=s1), off(0, 60, time=s1 + d1)])
+        before = [Ev(m.time, m.copy()) for m in raw_abs(src)]
+        bars = Sequence.sequences_split_bars([src], 0, quantise_note_lengths=True)
+        evs = []
+        for k, bar in enumerate(bars[0]):
+            er, dr = rel_events(raw_rel(bar.sequence))
+            evs.extend([Ev(e.t + 96 * k, e.m) for e in er])
+        ctx.must("roll_subset", implies(sounding_count(evs, 0, 60, tau) >= 1, sounding_count(before, 0, 60, tau) >= 1),
+                 disc="cut tail")
+        ctx.must("fragments_wellformed", wellformed_alternation(evs), disc="cut tail")
+        return [obs_events(evs)]
+    return Query("cut_tail_then_same_pitch/requant", fn, ["roll_subset", "fragments_wellformed"],
+                 desc="a note cut at the bar line, the same pitch struck again later in that bar, re-quantisation on")
+
+
 def queries(tier, seed):
     qs = []
     for plan in PLANS:
@@ -180,6 +206,7 @@ def queries(tier, seed):
     qs.append(q_bars("t1n2mc", "34", 2, None, False, 80, 80, multich=True))     # one track carrying two channels
     qs.append(q_bars("t2empty", "34", 1, "empty", False, 100, 100))
     qs.append(q_bars("t1n2samepitch", "none", 2, None, True, 60, 0, same_pitch=True))
+    qs.append(q_cut_tail_then_same_pitch())
     qs.append(q_bars("t2long", "68-24", 1, "long", False, 60, 60))
     qs.append(q_bars("t2n1", "44-34k", 1, 1, True, 40 if tier == "quick" else 100, 0))
     if tier == "thorough":
